@@ -788,8 +788,21 @@ func ruleDropNotFail(c *Ctx, r *Report) {
 			g, ok := u.X.(*ssa.Global)
 			return ok && g.Name() == "ErrInvalidPacketLength"
 		}
+		isMatcherOfInvalidLen := func(v ssa.Value) bool {
+			call, ok := v.(*ssa.Call)
+			if !ok {
+				return false
+			}
+			callee := call.Call.StaticCallee()
+			if callee == nil || !inModule(callee) {
+				return false
+			}
+			set, ok := c.sentinelMatcher(callee)
+			return ok && set["ErrInvalidPacketLength"]
+		}
 		w := (&Walk{Fn: fn, Assume: assumeAll(
 			atomAssume{isInvalidLen, vBool(true)},
+			atomAssume{isMatcherOfInvalidLen, vBool(true)},
 			atomAssume{mCall("errors.As"), vBool(false)},
 		)}).FromEntry()
 		good := len(w.Returns) > 0
@@ -1145,6 +1158,11 @@ func ruleUnpackErrorsDropped(c *Ctx, r *Report) {
 					}
 				}
 			}
+			if callee := call.Call.StaticCallee(); callee != nil && inModule(callee) {
+				if set, ok := c.sentinelMatcher(callee); ok {
+					return vBool(set[sentinel]), true
+				}
+			}
 			return unknown, false
 		}}).FromEntry()
 		if len(w.Returns) == 0 {
@@ -1190,4 +1208,144 @@ func sortedBoolKeys(m map[string]bool) []string {
 	}
 	sort.Strings(out)
 	return out
+}
+
+// sentinelMatcher recognises a helper of the form
+//   func(err error) bool { for _, s := range [...]error{A, B, ...} { if errors.Is(err, s) { return true } }; return false }
+// (or a chain of errors.Is tests joined by ||) and returns the set of sentinels it matches.
+// ok is false when the function has another shape.
+func (c *Ctx) sentinelMatcher(fn *ssa.Function) (map[string]bool, bool) {
+	if fn == nil || len(fn.Blocks) == 0 || len(fn.Params) != 1 || !isErrorType(fn.Params[0].Type()) {
+		return nil, false
+	}
+	res := fn.Signature.Results()
+	if res.Len() != 1 {
+		return nil, false
+	}
+	if bt, ok := res.At(0).Type().Underlying().(*types.Basic); !ok || bt.Kind() != types.Bool {
+		return nil, false
+	}
+	set := map[string]bool{}
+	calls := findCalls(fn, nameIs("errors.Is"))
+	if len(calls) == 0 {
+		return nil, false
+	}
+	for _, call := range calls {
+		if call.Call.Args[0] != ssa.Value(fn.Params[0]) {
+			return nil, false
+		}
+		for _, l := range c.Origins(call.Call.Args[1], 0) {
+			// an element of a local array literal (by value): t = *lit; t[i]
+			if ix, isIx := l.(*ssa.Index); isIx {
+				if ld, isLd := ix.X.(*ssa.UnOp); isLd {
+					if al, isAl := ld.X.(*ssa.Alloc); isAl {
+						okLit := true
+						for _, ref := range *al.Referrers() {
+							ia2, isIA := ref.(*ssa.IndexAddr)
+							if !isIA {
+								continue
+							}
+							for _, r2 := range *ia2.Referrers() {
+								st, isSt := r2.(*ssa.Store)
+								if !isSt {
+									continue
+								}
+								u, isU := st.Val.(*ssa.UnOp)
+								if !isU {
+									okLit = false
+									continue
+								}
+								g, isG := u.X.(*ssa.Global)
+								if !isG {
+									okLit = false
+									continue
+								}
+								set[g.Name()] = true
+							}
+						}
+						if okLit {
+							continue
+						}
+					}
+				}
+				return nil, false
+			}
+			switch x := l.(type) {
+			case *ssa.UnOp:
+				if g, ok := x.X.(*ssa.Global); ok {
+					set[g.Name()] = true
+					continue
+				}
+				// an element of a local array literal: every element stored is a sentinel load
+				if ia, ok := x.X.(*ssa.IndexAddr); ok {
+					base := ia.X
+					if sl, isSl := base.(*ssa.Slice); isSl {
+						base = sl.X
+					}
+					al, isAl := base.(*ssa.Alloc)
+					if !isAl {
+						return nil, false
+					}
+					for _, ref := range *al.Referrers() {
+						ia2, isIA := ref.(*ssa.IndexAddr)
+						if !isIA {
+							continue
+						}
+						for _, r2 := range *ia2.Referrers() {
+							st, isSt := r2.(*ssa.Store)
+							if !isSt {
+								continue
+							}
+							u, isU := st.Val.(*ssa.UnOp)
+							if !isU {
+								return nil, false
+							}
+							g, isG := u.X.(*ssa.Global)
+							if !isG {
+								return nil, false
+							}
+							set[g.Name()] = true
+						}
+					}
+					continue
+				}
+				return nil, false
+			default:
+				return nil, false
+			}
+		}
+	}
+	// semantics: no match -> false; a match -> true
+	w0 := (&Walk{Fn: fn, Assume: func(v ssa.Value) (Val, bool) {
+		if cl, ok := v.(*ssa.Call); ok && calleeName(&cl.Call) == "errors.Is" {
+			return vBool(false), true
+		}
+		return unknown, false
+	}}).FromEntry()
+	if len(w0.Returns) == 0 {
+		return nil, false
+	}
+	for _, ro := range w0.Returns {
+		if len(ro.Vals) != 1 || ro.Vals[0].Kind != 1 || ro.Vals[0].B {
+			return nil, false
+		}
+	}
+	for _, call := range calls {
+		cl := call
+		w1 := (&Walk{Fn: fn, Assume: func(v ssa.Value) (Val, bool) {
+			if v == ssa.Value(cl) {
+				return vBool(true), true
+			}
+			return unknown, false
+		}}).After(cl)
+		if len(w1.Returns) == 0 {
+			return nil, false
+		}
+		for _, ro := range w1.Returns {
+			if len(ro.Vals) != 1 || ro.Vals[0].Kind != 1 || !ro.Vals[0].B {
+				return nil, false
+			}
+		}
+	}
+	return set, len(set) > 0
 }
